@@ -289,6 +289,16 @@ impl Parser {
             )
             .to_err_vec()?;
 
+        if !rhs.is_numeric(true) {
+            let span = step.as_ref().map_or(val_end_span, |(_, span)| *span);
+
+            return Err(vec![new_err(
+                span,
+                &input.user_data().get_source_file_name(),
+                format!("`from` loops only allow a numeric step, found {rhs}"),
+            )]);
+        }
+
         let Some(step_output_type) = start_ty.get_output_type(
             &rhs,
             &BinaryOperation::Add,
